@@ -371,6 +371,21 @@ def builtin_values_section(tier, seed):
         v = V.rand_value(rng, budget=rng.choice([5, 10, 20, 40, 60]))
         sorts = (0, 1) if sortable(v) else (0,)
         cases.append((v, settings_for(rng, v, tier, sorts)))
+    # dicts whose keys are of different but mutually comparable types (int / float / bool, tuples of them), in both sort settings,
+    # alone and nested: ascending key order must not depend on the keys' types
+    num_pool = [3, 1.5, 2, -1, 0.25, 10 ** 20, 7.0, -2.5, 4, True, 0]
+    for _ in range(150 if tier == 'quick' else 1500):
+        ks = rng.sample(num_pool, rng.choice([2, 3, 4, 5]))
+        seen, keys = set(), []
+        for k in ks:
+            if k not in seen:
+                seen.add(k)
+                keys.append(k)
+        d = {k: rng.choice([1, 'v', None]) for k in keys}
+        if rng.random() < 0.3:
+            d = {(k, rng.choice([1, 2.5])): 0 for k in keys}
+        v = rng.choice([d, [d, 1], {'outer': d}, (d,)])
+        cases.append((v, settings_for(rng, v, 'quick', (0, 1))[::3]))
     tot, nt, mism, fails = run_cases(cases, 'c01')
     stats = {'evaluations': tot, 'distinct_nontrivial': nt, 'small_trees': len(small), 'random_values': n_rand,
              'mismatches': len(mism),
